@@ -395,6 +395,43 @@ func init() {
 	originRuleMsg("C05.origins.redelegate", []string{"C05", "C15"}, "keeper.MsgServer.Redelegate", 3, userMsg)
 	originRuleMsg("C05.origins.claim", []string{"C05"}, "keeper.MsgServer.ClaimDelegationRewards", 3, userMsg)
 
+	// CompleteRedelegations stops at the first error of DeleteRedelegation and returns the count: the bucket it was
+	// working on is not deleted and is found again by every later block, so nothing behind it ever completes.  That is
+	// tolerable for store failures (A2) and unparsable stored addresses only: DeleteRedelegation must not create
+	// business errors of its own (round 8, C18h: "record not found" made the duplicate queue entries that a genesis
+	// import leaves - InitGenesis queues every imported redelegation twice - block the queue for good).
+	register(&Rule{ID: "C15.deletetotal", Props: []string{"C15", "C18", "C17"}, Floor: 1,
+		Doc: "deleting a matured redelegation fails only on store or address-parse errors (it is idempotent for missing records)",
+		Run: func(e *Engine, r *RuleRun) {
+			fn := r.Need("keeper.Keeper.DeleteRedelegation")
+			if fn == nil {
+				return
+			}
+			oc := &originCtx{e: e, memo: map[*ssa.Function]originSet{}, busy: map[*ssa.Function]bool{}}
+			set := oc.originsOf(fn)
+			var keys []string
+			for k := range set {
+				keys = append(keys, k)
+			}
+			sort.Strings(keys)
+			bad := 0
+			for _, k := range keys {
+				o := set[k]
+				if o.Kind == "EXT" || o.Kind == "PARSE" || o.Kind == "NILREQ" {
+					continue
+				}
+				bad++
+				pos := "-"
+				if o.Pos != nil {
+					pos = r.P(o.Pos)
+				}
+				r.Bad(FuncKey(topFunc(o.Fn)), "origin:"+o.Kind+"("+o.Name+")", "DeleteRedelegation can fail with an error of the module's own making; CompleteRedelegations stops at the first error without removing the queue bucket, so one such entry (for instance the duplicate that a genesis import queues) keeps every later redelegation from completing: the onward-hop restriction is never lifted and the imported module stops behaving like the original", nil, pos)
+			}
+			if bad == 0 {
+				r.OK(FuncKey(fn), "only external / parse error origins", fmt.Sprintf("%d origins, all store or address-parse errors", len(keys)), e.Pos(fn.Pos()))
+			}
+		}})
+
 	register(&Rule{ID: "C08.claimguard", Props: []string{"C08", "C05"}, Floor: 5,
 		Doc: "inside operations and callbacks a reward claim is dominated by a successful lookup of the same delegation (and asset in callbacks)",
 		Run: func(e *Engine, r *RuleRun) {
